@@ -6,7 +6,7 @@
    why the full statement C13_history is not a theorem. *)
 From Coq Require Import ZArith List String Bool Ascii.
 From Verif Require Import Value PyEq BsonOrder Path Filter Update Project Coll HistCheck HistProps
-  HistGuards.
+  HistGuards HistPropCheck.
 From Verif.Proofs Require Import C13Proofs.
 Import ListNotations.
 Open Scope Z_scope.
@@ -160,4 +160,45 @@ Example refuted_trailing_dot_upsert :
   last_step cex_trailing_dot =
   Some (Ok (VDoc [("matched", VInt 0); ("modified", VInt 0); ("upserted_id", VOid 1000)]),
         [(VOid 1000, VDoc [("a", VDoc [("", VInt 1)]); ("_id", VOid 1000); ("b", VInt 1)])]).
+Proof. vm_compute. split; reflexivity. Qed.
+
+(* ------------------------------------------------------------------ C: two more classes *)
+(* Found while proving the clause "where the upserted _id comes from" and probing the clause
+   "the new document matches an equality-only filter": histories on which c13_ok is false
+   although c13_reasons (bits 1, 2, 4) was 0 AND the syntactic screen c13_undecided
+   (Spec/HistPropCheck.v) was false.  Each is now reported by a new bit of c13_reasons. *)
+Definition undecided_verdict (ops : list op) : bool * bool * Z * bool * bool :=
+  let os := model_obs false empty_coll ops in
+  (c13_ok ops os, c13w_ok ops os, c13_reasons ops os, HistPropCheck.c13_undecided ops,
+   modelled false empty_coll ops).
+
+(* C1 (bit 32, F-UPSERT-ID-SUBFIELD).  The update addresses a path BELOW _id: the seed takes
+   _id {a: 1} from the filter, {$set: {"_id.x": 1}} then rewrites it: the document is inserted
+   under _id {a: 1, x: 1}, which is not the filter's _id, and the filter does not match the
+   upserted document.  The server rejects the update (_id is immutable).  Defect candidate (same
+   family as B1, which c13_undecided screens because the path is "_id" itself). *)
+Definition cex_id_subfield : list op :=
+  [OUpdate (VDoc [("_id", VDoc [("a", VInt 1)])]) (VDoc [("$set", VDoc [("_id.x", VInt 1)])])
+           false true].
+Example refuted_id_subfield :
+  undecided_verdict cex_id_subfield = (false, true, 32, false, true) /\
+  last_step cex_id_subfield =
+  Some (Ok (VDoc [("matched", VInt 0); ("modified", VInt 0);
+                  ("upserted_id", VDoc [("a", VInt 1); ("x", VInt 1)])]),
+        [(VDoc [("a", VInt 1); ("x", VInt 1)], VDoc [("_id", VDoc [("a", VInt 1); ("x", VInt 1)])])]).
+Proof. vm_compute. split; reflexivity. Qed.
+
+(* C2 (bit 64, F-UPSERT-NULL-ID).  The filter binds _id to None: the seed's None _id is replaced
+   by a fresh ObjectId, so the upserted document does not match the equality-only filter, and
+   the same call inserts a new document every time (the server inserts _id None once and
+   matches it afterwards).  Defect candidate. *)
+Definition cex_null_id_filter : list op :=
+  [OUpdate (VDoc [("_id", VNull); ("a", VInt 1)]) (VDoc [("$set", VDoc [("b", VInt 1)])]) false true;
+   OUpdate (VDoc [("_id", VNull); ("a", VInt 1)]) (VDoc [("$set", VDoc [("b", VInt 1)])]) false true].
+Example refuted_null_id_filter :
+  undecided_verdict cex_null_id_filter = (false, true, 64, false, true) /\
+  last_step cex_null_id_filter =
+  Some (Ok (VDoc [("matched", VInt 0); ("modified", VInt 0); ("upserted_id", VOid 1001)]),
+        [(VOid 1000, VDoc [("_id", VOid 1000); ("a", VInt 1); ("b", VInt 1)]);
+         (VOid 1001, VDoc [("_id", VOid 1001); ("a", VInt 1); ("b", VInt 1)])]).
 Proof. vm_compute. split; reflexivity. Qed.
